@@ -1,11 +1,72 @@
+//! Smoke test / measurement for `hx_projgen`.
+//!
+//! `projgen_smoke [N]` (default 500; seed from `VERIF_SEED`, default 1):
+//!  1. the demo projects of /repo compile in-process and reproduce their checked-in artifacts;
+//!  2. N generated projects are compiled in-process by the REAL compiler: acceptance rate (must be
+//!     ≥ 70 %), histogram of diagnostic kinds / panic messages, feature distribution;
+//!  3. single-fault mutants: rejection rate per fault kind (must be ≥ 90 % each);
+//!  4. rearrangements (permute / duplicate-under-alias / extract-client-field): still accepted,
+//!     operations (`query_text.ts`, `normalization_ast.ts`) byte-identical;
+//!  5. layout knobs and file plans: still accepted;
+//!  6. wire round trip Rust → wire → Rust, and Rust → wire → Lean → wire on 1 000 projects;
+//!  7. the real CLI in a subprocess on a few projects (skipped with HX_SMOKE_SKIP_CLI=1);
+//!  8. nothing is left under /tmp.
+//! Debugging aids: `CASE=<i>` runs only project i with the default panic hook and prints it;
+//! `SHOW=1` prints one project per failure class, `SHRINK=1` minimises it first.
+use hx_projgen::arrange::*;
 use hx_projgen::compile::*;
 use hx_projgen::gen::*;
+use hx_projgen::model::*;
+use hx_projgen::mutate::*;
+use hx_projgen::render::*;
+use hx_projgen::wire::*;
 use hx_projgen::Rng;
 use std::collections::BTreeMap;
+use std::io::Write;
+
+fn class_of(r: &CompileResult) -> String {
+    match r {
+        CompileResult::Panic(m) => format!("panic: {}", m.chars().take(100).collect::<String>()),
+        x => x.summary(),
+    }
+}
+
+fn operations(a: &BTreeMap<String, Vec<u8>>) -> BTreeMap<String, Vec<u8>> {
+    a.iter()
+        .filter(|(k, _)| (k.ends_with("/query_text.ts") || k.ends_with("/normalization_ast.ts")) && !k.contains("__refetch__"))
+        .map(|(k, v)| (k.clone(), v.clone()))
+        .collect()
+}
+
+fn print_project(p: &Project) {
+    for (f, b) in render_default(p) {
+        println!("--- {}\n{}", f.display(), String::from_utf8_lossy(&b));
+    }
+}
+
+fn rss_mb() -> f64 {
+    std::fs::read_to_string("/proc/self/statm")
+        .ok()
+        .and_then(|s| s.split(' ').nth(1).and_then(|x| x.parse::<f64>().ok()))
+        .map_or(0.0, |pages| pages * 4096.0 / 1e6)
+}
+
+#[derive(Default)]
+struct Rate {
+    tried: usize,
+    good: usize,
+    exact: usize,
+}
+
 fn main() {
-    if std::env::var("CASE").is_err() { hx_common::quiet_panics(); }
-    let n: u64 = std::env::args().nth(1).and_then(|s| s.parse().ok()).unwrap_or(200);
+    let case: Option<u64> = std::env::var("CASE").ok().and_then(|s| s.parse().ok());
+    if case.is_none() {
+        hx_common::quiet_panics();
+    }
+    let n: u64 = std::env::args().nth(1).and_then(|s| s.parse().ok()).unwrap_or(500);
     let seed: u64 = std::env::var("VERIF_SEED").ok().and_then(|s| s.parse().ok()).unwrap_or(1);
+    let show = std::env::var("SHOW").is_ok();
+    let do_shrink = std::env::var("SHRINK").is_ok();
     let mut o = GenOpts::default();
     let envn = |k: &str| std::env::var(k).ok().and_then(|s| s.parse::<usize>().ok());
     if let Some(v) = envn("EXP_POINTER") { o.pct_pointer = v; }
@@ -13,37 +74,363 @@ fn main() {
     if let Some(v) = envn("EXP_VIO") { o.pct_var_in_object = v; }
     if let Some(v) = envn("EXP_LOADABLE") { o.pct_loadable = v; }
     if let Some(v) = envn("EXP_UPD") { o.pct_updatable = v; }
-    let mut hist: BTreeMap<String, usize> = BTreeMap::new();
-    let mut ok = 0;
-    let mut shown: BTreeMap<String, usize> = BTreeMap::new();
-    let only: Option<u64> = std::env::var("CASE").ok().and_then(|s| s.parse().ok());
-    for i in 0..n {
-        if only.map_or(false, |c| c != i) { continue; }
-        let mut r = Rng::new(seed, i);
-        let p = generate(&mut r, &o);
-        let out = compile_project(&p);
-        if out.result.is_ok() { ok += 1; }
-        let key = match &out.result { CompileResult::Panic(m) => format!("panic: {}", &m[..m.len().min(90)]), x => x.summary() };
-        *hist.entry(key.clone()).or_default() += 1;
-        if !out.result.is_ok() {
-            let c = shown.entry(key.clone()).or_default();
-            if *c < 1 && std::env::var("SHOW").is_ok() {
-                *c += 1;
-                let p = if std::env::var("SHRINK").is_ok() {
-                    let want = key.clone();
-                    hx_projgen::shrink::shrink(&p, 3000, |q| {
-                        let o = compile_project(q);
-                        let k = match &o.result { CompileResult::Panic(m) => format!("panic: {}", &m[..m.len().min(90)]), x => x.summary() };
-                        k == want
-                    })
-                } else { p.clone() };
-                println!("=== case {i}: {key}");
-                if let CompileResult::Diagnostics(ds) = &out.result { for d in ds.iter().take(2) { println!("{}", d.rendered.clone().unwrap_or(d.message.clone())); } }
-                if let CompileResult::Panic(m) = &out.result { println!("{m}"); }
-                for (f, b) in hx_projgen::render::render_default(&p) { println!("--- {}\n{}", f.display(), String::from_utf8_lossy(&b)); }
+    let mut failures: Vec<String> = vec![];
+    let t0 = std::time::Instant::now();
+
+    // ---- 1. demos -------------------------------------------------------------------------
+    if case.is_none() {
+        println!("== demos");
+        for d in DEMOS {
+            let files = load_demo(d).expect("demo files");
+            let out = compile_files(&files);
+            let same = load_demo_checked_in_artifacts(d).map(|c| c == out.artifacts);
+            println!("  {d}: {} source files -> {} ({} artifacts, identical to checked-in: {:?})", files.len(), out.result.summary(), out.artifacts.len(), same);
+            if !out.result.is_ok() || same != Some(true) {
+                failures.push(format!("demo {d} did not reproduce its artifacts"));
             }
         }
     }
-    println!("accepted {ok}/{n}");
-    for (k, v) in hist { println!("{v:6} {k}"); }
+
+    // ---- 2. generated projects ------------------------------------------------------------
+    println!("== generate + compile {n} projects (seed {seed})");
+    let mut hist: BTreeMap<String, usize> = BTreeMap::new();
+    let mut shown: BTreeMap<String, usize> = BTreeMap::new();
+    let mut feat: BTreeMap<&'static str, usize> = BTreeMap::new();
+    let mut accepted: Vec<(u64, Project, Outcome)> = vec![];
+    let mut total_artifacts = 0usize;
+    for i in 0..n {
+        if case.map_or(false, |c| c != i) {
+            continue;
+        }
+        let mut r = Rng::new(seed, i);
+        let p = generate(&mut r, &o);
+        let out = compile_project(&p);
+        let key = class_of(&out.result);
+        *hist.entry(key.clone()).or_default() += 1;
+        // features
+        let mut f = |k: &'static str, b: bool| if b { *feat.entry(k).or_default() += 1 };
+        f("interface", p.schema.types.iter().any(|t| matches!(t.kind, TypeKind::Interface { .. })));
+        f("union", p.schema.types.iter().any(|t| matches!(t.kind, TypeKind::Union { .. })));
+        f("enum", p.schema.types.iter().any(|t| matches!(t.kind, TypeKind::Enum { .. })));
+        f("input object", p.schema.types.iter().any(|t| matches!(t.kind, TypeKind::Input { .. })));
+        f("mutation type", p.schema.get("Mutation").is_some());
+        f("@exposeField", !p.extensions.is_empty());
+        f("client pointer", p.client_pointers().next().is_some());
+        f("entrypoint", p.entrypoints().next().is_some());
+        f(">=2 entrypoints", p.entrypoints().count() >= 2);
+        let wire = to_wire(&p);
+        f("@loadable", wire.contains(&hx_common::hex(b"loadable")));
+        f("@updatable", wire.contains(&hx_common::hex(b"updatable")));
+        f("variables", p.decls.iter().any(|(_, d)| !d.vars().is_empty()));
+        f("object literal", wire.contains(" vo "));
+        f("asConcreteType", wire.contains(&format!(" {}", &hx_common::hex(b"as")[..])) );
+        f("client field selects client field", {
+            let env = hx_projgen::env::Env::new(&p);
+            let mut hit = false;
+            env.walk(|_, _, _, t| if t.map_or(false, |t| t.kind == hx_projgen::env::SelKind::ClientField) { hit = true });
+            hit
+        });
+        f("non-default options", p.options != Options::default());
+        if out.result.is_ok() {
+            total_artifacts += out.artifacts.len();
+            accepted.push((i, p.clone(), out.clone()));
+        }
+        if case.is_some() {
+            println!("case {i}: {key}");
+            if let CompileResult::Diagnostics(ds) = &out.result {
+                for d in ds { println!("{}", d.rendered.clone().unwrap_or(d.message.clone())); }
+            }
+            print_project(&p);
+            println!("wire: {wire}");
+        }
+        if !out.result.is_ok() && show {
+            let c = shown.entry(key.clone()).or_default();
+            if *c < 1 {
+                *c += 1;
+                let q = if do_shrink { hx_projgen::shrink::shrink(&p, 3000, |q| class_of(&compile_project(q).result) == key) } else { p.clone() };
+                println!("=== case {i}: {key}");
+                if let CompileResult::Diagnostics(ds) = &out.result {
+                    for d in ds.iter().take(3) { println!("{}", d.rendered.clone().unwrap_or(d.message.clone())); }
+                }
+                print_project(&q);
+            }
+        }
+    }
+    if case.is_some() {
+        return;
+    }
+    let acc = accepted.len() as f64 / n as f64;
+    println!("  accepted (zero diagnostics): {}/{} = {:.1} %   [{} artifacts in total, {:.1} per project]", accepted.len(), n, 100.0 * acc, total_artifacts, total_artifacts as f64 / accepted.len().max(1) as f64);
+    println!("  outcome histogram:");
+    for (k, v) in &hist {
+        println!("  {v:7}  {k}");
+    }
+    println!("  feature distribution (projects having it):");
+    for (k, v) in &feat {
+        println!("  {:6.1} %  {k}", 100.0 * *v as f64 / n as f64);
+    }
+    if acc < 0.70 {
+        failures.push(format!("acceptance rate {:.1} % < 70 %", 100.0 * acc));
+    }
+
+    // ---- 3. single-fault mutants ------------------------------------------------------------
+    println!("== single-fault mutants (every kind on every third accepted project)");
+    let mut kinds: Vec<FaultKind> = FaultKind::ALL.to_vec();
+    kinds.push(FaultKind::MissingRequiredArgumentLinked);
+    let mut rates: BTreeMap<FaultKind, Rate> = BTreeMap::new();
+    let mut no_site: BTreeMap<FaultKind, usize> = BTreeMap::new();
+    let mut mutant_hist: BTreeMap<(FaultKind, String), usize> = BTreeMap::new();
+    for (i, p, _) in &accepted {
+        for (ki, k) in kinds.iter().enumerate() {
+            if (*i as usize + ki) % 3 != 0 {
+                continue;
+            }
+            let mut r = Rng::new(seed ^ 0xfa17, *i * 16 + ki as u64);
+            match mutate_fault(&mut r, p, *k) {
+                None => *no_site.entry(*k).or_default() += 1,
+                Some(q) => {
+                    let out = compile_project(&q);
+                    let e = rates.entry(*k).or_default();
+                    e.tried += 1;
+                    let ks = out.result.kinds();
+                    if matches!(out.result, CompileResult::Diagnostics(_)) {
+                        e.good += 1;
+                        if ks.iter().all(|x| x == k.expected_diag_kind()) {
+                            e.exact += 1;
+                        }
+                    }
+                    *mutant_hist.entry((*k, class_of(&out.result))).or_default() += 1;
+                    if show && !matches!(out.result, CompileResult::Diagnostics(_)) && *k != FaultKind::MissingRequiredArgumentLinked {
+                        let c = shown.entry(format!("mutant {}", k.name())).or_default();
+                        if *c < 1 {
+                            *c += 1;
+                            println!("=== mutant {} of case {i} -> {}", k.name(), class_of(&out.result));
+                            print_project(&q);
+                        }
+                    }
+                }
+            }
+        }
+    }
+    println!("  {:36} {:>6} {:>9} {:>9}  {:>8}", "fault kind", "tried", "rejected", "only-exp.", "no-site");
+    for k in &kinds {
+        let e = rates.get(k).map(|r| (r.tried, r.good, r.exact)).unwrap_or((0, 0, 0));
+        let rej = if e.0 == 0 { 0.0 } else { 100.0 * e.1 as f64 / e.0 as f64 };
+        let ex = if e.0 == 0 { 0.0 } else { 100.0 * e.2 as f64 / e.0 as f64 };
+        println!("  {:36} {:>6} {:>8.1}% {:>8.1}%  {:>8}", k.name(), e.0, rej, ex, no_site.get(k).copied().unwrap_or(0));
+        if FaultKind::ALL.contains(k) && (e.0 < 20 || rej < 90.0) {
+            failures.push(format!("mutant kind {}: tried {} rejected {:.1} %", k.name(), e.0, rej));
+        }
+    }
+    println!("  (missing-required-argument-linked is informational: the compiler exempts every selection with a selection set)");
+    for ((k, c), v) in &mutant_hist {
+        if !c.contains(k.expected_diag_kind()) || c.contains('+') {
+            println!("      {v:5}  {} -> {c}", k.name());
+        }
+    }
+    // mutate_single_fault as a whole
+    {
+        let mut tried = 0;
+        let mut rejected = 0;
+        for (i, p, _) in accepted.iter().take(200) {
+            let mut r = Rng::new(seed ^ 0x51, *i);
+            if let Some((q, _k)) = mutate_single_fault(&mut r, p) {
+                tried += 1;
+                if matches!(compile_project(&q).result, CompileResult::Diagnostics(_)) {
+                    rejected += 1;
+                }
+            }
+        }
+        println!("  mutate_single_fault: {rejected}/{tried} rejected");
+    }
+
+    // ---- 4. rearrangements --------------------------------------------------------------------
+    println!("== rearrangements (every second accepted project)");
+    let mut arr: BTreeMap<&'static str, (usize, usize, usize, usize)> = BTreeMap::new(); // tried, accepted, same ops, n/a
+    for (i, p, base) in accepted.iter().filter(|(i, _, _)| i % 2 == 0) {
+        let base_ops = operations(&base.artifacts);
+        let mut r = Rng::new(seed ^ 0xa77, *i);
+        let variants: Vec<(&'static str, Option<Project>)> = vec![
+            ("permute-selections", Some(permute_selections(&mut r, p))),
+            ("duplicate-under-alias", duplicate_under_alias(&mut r, p)),
+            ("extract-client-field", extract_client_field(&mut r, p)),
+        ];
+        for (name, q) in variants {
+            let e = arr.entry(name).or_default();
+            match q {
+                None => e.3 += 1,
+                Some(q) => {
+                    e.0 += 1;
+                    let out = compile_project(&q);
+                    if out.result.is_ok() {
+                        e.1 += 1;
+                        if operations(&out.artifacts) == base_ops {
+                            e.2 += 1;
+                        } else if show {
+                            let c = shown.entry(format!("arr-ops {name}")).or_default();
+                            if *c < 1 {
+                                *c += 1;
+                                println!("=== {name} of case {i}: operations differ");
+                                print_project(p);
+                                println!("=== … rearranged:");
+                                print_project(&q);
+                            }
+                        }
+                    } else if show {
+                        let c = shown.entry(format!("arr {name}")).or_default();
+                        if *c < 1 {
+                            *c += 1;
+                            println!("=== {name} of case {i} -> {}", class_of(&out.result));
+                            print_project(&q);
+                        }
+                    }
+                }
+            }
+        }
+    }
+    println!("  {:24} {:>6} {:>9} {:>12} {:>6}", "transformation", "tried", "accepted", "same ops", "n/a");
+    for (k, (t, a, s, na)) in &arr {
+        println!("  {:24} {:>6} {:>8.1}% {:>11.1}% {:>6}", k, t, 100.0 * *a as f64 / (*t).max(1) as f64, 100.0 * *s as f64 / (*t).max(1) as f64, na);
+        if (*a as f64) < 0.9 * *t as f64 {
+            failures.push(format!("rearrangement {k}: only {a}/{t} accepted"));
+        }
+    }
+
+    // ---- 5. layouts and file plans ------------------------------------------------------------
+    println!("== layout knobs / file plans (every fourth accepted project)");
+    {
+        let mut tried = 0;
+        let mut ok = 0;
+        let mut same_ops = 0;
+        let mut same_all = 0;
+        let mut noise_ok = 0;
+        for (i, p, base) in accepted.iter().filter(|(i, _, _)| i % 4 == 0) {
+            let mut r = Rng::new(seed ^ 0x1a7, *i);
+            let mut ro = RenderOpts::random(&mut r);
+            let out = compile_project_with(p, &ro);
+            tried += 1;
+            if out.result.is_ok() { ok += 1; }
+            if out.artifacts == base.artifacts { same_all += 1; }
+            ro.file_plan = r.pick(&[FilePlan::OnePerDecl, FilePlan::Single("all.tsx".into()), FilePlan::Rename, FilePlan::Shuffle { seed: *i }]).clone();
+            let out2 = compile_project_with(p, &ro);
+            if out2.result.is_ok() && operations(&out2.artifacts) == operations(&base.artifacts) { same_ops += 1; }
+            let mut q = p.clone();
+            for k in HARMLESS_NOISE { add_noise(&mut q, *k); }
+            let out3 = compile_project(&q);
+            if out3.result.is_ok() && out3.artifacts == base.artifacts { noise_ok += 1; }
+        }
+        println!("  random layout: {ok}/{tried} accepted, {same_all}/{tried} all artifacts byte-identical");
+        println!("  random file plan: {same_ops}/{tried} accepted with identical operations");
+        println!("  harmless noise files: {noise_ok}/{tried} accepted with identical artifacts");
+        if ok != tried || same_all != tried { failures.push("layout knobs changed the outcome".into()); }
+        if same_ops != tried { failures.push("file plans changed the operations".into()); }
+        if noise_ok != tried { failures.push("noise files changed the outcome".into()); }
+    }
+
+    // ---- 6. wire round trips ------------------------------------------------------------------
+    println!("== wire format");
+    {
+        let m = 1000u64;
+        let mut lines = Vec::with_capacity(m as usize);
+        let mut rust_ok = 0;
+        let mut rich = GenOpts::default();
+        rich.unparseable_values = true; // exercise Float / Enum / List values on the wire as well
+        rich.strings = Alphabet::Risky;
+        for i in 0..m {
+            let mut r = Rng::new(seed ^ 0x317e, i);
+            let mut p = generate(&mut r, if i % 2 == 0 { &o } else { &rich });
+            if i % 5 == 0 { add_noise(&mut p, Noise::BinaryNonSource); add_noise(&mut p, Noise::EmptySource); }
+            let w = to_wire(&p);
+            if from_wire(&w).as_ref() == Some(&p) && !w.contains('\n') { rust_ok += 1; }
+            lines.push(w);
+        }
+        println!("  Rust -> wire -> Rust: {rust_ok}/{m} identical");
+        if rust_ok != m { failures.push("Rust wire round trip".into()); }
+        if std::env::var("HX_SMOKE_SKIP_LEAN").is_ok() {
+            println!("  Lean round trip skipped (HX_SMOKE_SKIP_LEAN)");
+        } else {
+            let tmp = TempDir::new();
+            let inp = tmp.path().join("wire.txt");
+            let mut f = std::fs::File::create(&inp).unwrap();
+            for l in &lines { writeln!(f, "{l}").unwrap(); }
+            drop(f);
+            let t = std::time::Instant::now();
+            let out = std::process::Command::new("lake")
+                .args(["env", "lean", "--run", "Driver/Projgen.lean"])
+                .current_dir("/verif/lean")
+                .stdin(std::fs::File::open(&inp).unwrap())
+                .output();
+            match out {
+                Err(e) => failures.push(format!("cannot run lake: {e}")),
+                Ok(out) => {
+                    let text = String::from_utf8_lossy(&out.stdout);
+                    let got: Vec<&str> = text.lines().collect();
+                    let same = got.len() == lines.len() && got.iter().zip(&lines).all(|(a, b)| a == b);
+                    let n_same = got.iter().zip(&lines).filter(|(a, b)| a == b).count();
+                    println!("  Rust -> wire -> Lean -> wire: {n_same}/{m} byte-identical ({:.1} s)", t.elapsed().as_secs_f64());
+                    if !same {
+                        failures.push(format!("Lean wire round trip: {n_same}/{m}; stderr: {}", String::from_utf8_lossy(&out.stderr).chars().take(400).collect::<String>()));
+                        if let Some((a, b)) = got.iter().zip(&lines).find(|(a, b)| a != b) {
+                            println!("  first difference:\n   rust: {}\n   lean: {}", &b[..b.len().min(300)], &a[..a.len().min(300)]);
+                        }
+                    }
+                }
+            }
+        }
+    }
+
+    // ---- 7. CLI subprocess ---------------------------------------------------------------------
+    if std::env::var("HX_SMOKE_SKIP_CLI").is_ok() {
+        println!("== CLI subprocess skipped (HX_SMOKE_SKIP_CLI)");
+    } else {
+        println!("== CLI subprocess (real isograph_cli binary)");
+        match cli_binary(false) {
+            Err(e) => failures.push(format!("CLI binary: {e}")),
+            Ok(bin) => {
+                println!("  binary: {}", bin.display());
+                let mut agree = 0;
+                let mut tried = 0;
+                for (_, p, base) in accepted.iter().take(5) {
+                    tried += 1;
+                    match compile_via_cli_subprocess(p) {
+                        Ok(c) if c.class() == "ok" && c.artifacts == base.artifacts => agree += 1,
+                        Ok(c) => println!("  CLI disagrees: {} / {} artifacts\n{}", c.class(), c.artifacts.len(), c.stderr.chars().take(300).collect::<String>()),
+                        Err(e) => println!("  CLI error: {e}"),
+                    }
+                }
+                println!("  {agree}/{tried} accepted projects: CLI exit 0 and artifacts identical to the in-process compile");
+                if agree != tried { failures.push("CLI and in-process compile disagree".into()); }
+                // an invalid project: exit code 1
+                if let Some((_, p, _)) = accepted.first() {
+                    let mut r = Rng::new(seed, 77);
+                    if let Some(q) = mutate_fault(&mut r, p, FaultKind::UnusedVariable) {
+                        if let Ok(c) = compile_via_cli_subprocess(&q) { println!("  mutant: CLI class {}", c.class()); if c.class() != "diagnostics" { failures.push("CLI accepted a mutant".into()); } }
+                    }
+                }
+                // a cyclic project: the in-process compile cannot be used (stack overflow aborts the process)
+                let mut cyc = GenOpts::default();
+                cyc.allow_cycles = true;
+                let mut classes: BTreeMap<String, usize> = BTreeMap::new();
+                for i in 0..6 {
+                    let mut r = Rng::new(seed ^ 0xc1c, i);
+                    let p = generate(&mut r, &cyc);
+                    if let Ok(c) = compile_via_cli_subprocess(&p) { *classes.entry(c.class()).or_default() += 1; }
+                }
+                println!("  6 projects with a client-field cycle (allow_cycles): {:?}", classes);
+            }
+        }
+    }
+
+    // ---- 8. leftovers, memory -----------------------------------------------------------------
+    let prefix = format!("hx_proj_{}_", std::process::id());
+    let left: Vec<String> = std::fs::read_dir("/tmp").map(|rd| rd.flatten().map(|e| e.file_name().to_string_lossy().to_string()).filter(|n| n.starts_with(&prefix)).collect()).unwrap_or_default();
+    println!("== leftovers under /tmp: {}   resident memory: {:.0} MB   wall: {:.0} s", left.len(), rss_mb(), t0.elapsed().as_secs_f64());
+    if !left.is_empty() { failures.push(format!("left behind: {left:?}")); }
+    if failures.is_empty() {
+        println!("SMOKE OK");
+    } else {
+        println!("SMOKE FAILED:");
+        for f in &failures { println!("  - {f}"); }
+        std::process::exit(1);
+    }
 }
